@@ -339,12 +339,26 @@ template<size_t EpsRec> struct PgmExtra : NoExtra {
             size_t l = size_t(rec.level);
             size_t cnt = off[l + 1] - off[l] - 1; // entries except the sentinel
             auto lb = segs.begin() + off[l];
-            // independent recomputation: rightmost entry with key <= k
-            size_t tix = size_t(std::upper_bound(lb, lb + cnt, k) - lb);
-            tix = tix == 0 ? 0 : tix - 1;
+            // independent recomputation of the responsible entry. Levels are sorted except, for data ending within a few
+            // units of the reserved value, for the trailing closing entries (build() keys the "keys > last" entry of EVERY
+            // level with last_data_key + 1, while the closing points of upper levels cascade +1 per level): there both the
+            // forward-scan answer (first entry whose successor is > k) and the rightmost entry <= k are legitimate.
+            size_t t_scan = 0;
+            while (t_scan + 1 < cnt && !(k < lb[t_scan + 1].key)) ++t_scan;
+            size_t t_right = 0;
+            for (size_t i = cnt; i-- > 0;)
+                if (!(k < lb[i].key)) { t_right = i; break; }
             ++records;
-            if (rec.found != tix)
-                c.violation("routing_hook_mismatch", J().num("level", l).num("found", rec.found).num("true", tix).num("q", q));
+            size_t tix = rec.found;
+            if (rec.found != t_right) {
+                // accept any entry between the two candidates that is itself <= k and whose successor is > k
+                bool ok = rec.found < cnt && !(k < lb[rec.found].key) && (rec.found + 1 >= cnt || k < lb[rec.found + 1].key) && t_scan != t_right;
+                if (!ok) {
+                    c.violation("routing_hook_mismatch", J().num("level", l).num("found", rec.found).num("true", t_right).num("true_by_forward_scan", t_scan).num("q", q));
+                    tix = t_right;
+                } else
+                    c.count("routing_records_in_unsorted_tail");
+            }
             size_t dev = tix > rec.predicted ? tix - rec.predicted : rec.predicted - tix;
             max_dev = std::max<uint64_t>(max_dev, dev);
             if (dev > EpsRec + 1)
